@@ -425,7 +425,9 @@ def generate(unit, template_path, repo=None, canary=False):
                 want = cnt.strip('{}').strip()
                 ok = (n >= 1) if want == '+' else (n >= 0) if want == '*' else (n == int(want))
             else:
-                ok = n >= 1
+                # a rewrite only exists to make the verifier accept an idiom: where the idiom is absent the true text is verified
+                # (or rejected by the type checker -> UNDECIDED); an absent idiom is therefore not a lost anchor
+                ok = True
             if not ok:
                 raise AnchorError(f'{fi.name}: rewrite {rid} `{pat}` matched {n} times (template line {lineno})')
             count(rid, n)
